@@ -7,7 +7,7 @@
 From Coq Require Import QArith List Bool Arith.
 Import ListNotations.
 From PV Require Import Lib.WLS BSpline.Eval BSpline.Fit BSpline.Iter BSpline.FitProofs BSpline.PermProofs
-  BSpline.IterProofs C09.Proofs C10.Model C10.Proofs.
+  BSpline.IterProofs Generated.BSpline BSpline.GenBridge C09.Proofs C10.Model C10.Proofs.
 Open Scope Q_scope.
 
 (* permuting (x, y, invvar) leaves the coefficients unchanged and permutes the returned mask identically;
@@ -109,6 +109,25 @@ Theorem C10_sorted_arrangement_unique : forall l1 l2 : list datum, Permutation.P
   strictly_sorted (map dx l1) = true -> strictly_sorted (map dx l2) = true -> l1 = l2.
 Proof. exact strictly_sorted_unique. Qed.
 Print Assumptions C10_sorted_arrangement_unique.
+
+(* ---- the reference loop is built from exactly what translate/c08.py extracts from iterfit on every run: the good-point
+   test, the loop condition and its initial values (=> at most maxiter+1 passes), the weights handed to fit, the
+   un-sort assignment before every return, the arguments handed to djs_reject *)
+Theorem C10_generated_iterfit : forall ds iiter maxiter w m,
+  initial_mask ds = map (fun d => bs_iter_good (dw d)) ds /\
+  (bs_iter_init_iiter = 0%nat /\ bs_iter_init_error = 0%Z /\ bs_iter_init_qdone = false /\
+   bs_iter_continue 0 false iiter maxiter = (iiter <=? maxiter)%nat /\
+   bs_iter_continue 0 true iiter maxiter = false /\
+   (forall e q, bs_iter_continue e q iiter maxiter = true -> (iiter <= maxiter)%nat)) /\
+  bs_iter_fit_weight w m == (if m then w else 0) /\
+  (bs_iter_unsort_assignments = 3%nat /\ bs_iter_returns = 3%nat /\ bs_iter_returns_unsorted_first = 2%nat) /\
+  bs_iter_reject_args = expected_reject_args.
+Proof.
+  exact (fun ds iiter maxiter w m =>
+    conj (gen_iter_initial_mask ds) (conj (gen_iter_continue iiter maxiter) (conj (gen_iter_fit_weight w m)
+    (conj gen_iter_unsort gen_iter_reject_args)))).
+Qed.
+Print Assumptions C10_generated_iterfit.
 
 (* non-vacuity: one outlier among nine points of a straight line is rejected and the line is recovered *)
 Example C10_example :
